@@ -77,7 +77,9 @@ def histories(files, tier):
     for pi, perm in enumerate(perms):
         evs = [base[i] for i in perm]
         out.append(evs)
-        full = (tier != "quick") or pi == 0 or pi % 97 == 0
+        # (all 720 orders of the creation events are run; the duplicated / late / stale / consumer variants are derived
+        #  from every 97th order in the quick tier and every 11th in the thorough tier)
+        full = pi == 0 or pi % (97 if tier == "quick" else 11) == 0
         if full:
             for i, (k, f) in enumerate(evs):
                 out.append(evs[: i + 1] + [(k, f)] + evs[i + 1:])      # duplicated right away
@@ -521,12 +523,12 @@ def jobs(tier):
             use = hs if not windowed else hs[:: (5 if tier == "quick" else 2)]
             use_orders = orders if tier != "quick" else orders[:1] + orders[-1:]
             for i in range(0, len(use), 60):
-                out.append((method, windowed, use[i:i + 60], use_orders if i % 240 == 0 or tier != "quick" else use_orders[:1], False))
+                out.append((method, windowed, use[i:i + 60], use_orders if i % 240 == 0 else use_orders[:1], False))
     # crash points in move mode: base order + a few permutations, every boundary
     base = base_events(files)
     crash_h = [base, list(reversed(base)), base + [base[-1]], base[2:] + base[:2]]
     if tier != "quick":
-        crash_h += [list(p) for p in list(itertools.permutations(base))[::37]]
+        crash_h += [list(p) for p in list(itertools.permutations(base))[::97]]
     for h in crash_h:
         out.append(("move", False, [h], [tuple(range(3))], "crash"))
         out.append(("copy", False, [h], [tuple(range(2))], "crash"))
@@ -561,7 +563,7 @@ def main(tier):
               "os.makedirs, os.link, os.remove, os.rmdir, shutil.copy2, shutil.move are intercepted: invariants at every boundary "
               "and inside every copy; for move (and copy) a crash, and for move/link a one-shot I/O error, is injected at every boundary of selected histories; metadata/properties files are also rewritten in place (same size, same whole mtime second, different sub-second part) followed by their modified event; "
               "plus DigitalRFMirror.start()'s replay of existing files for every method x ignore_existing.")
-        % ("every 97th permutation" if tier == "quick" else "every permutation"),
+        % ("every 97th permutation" if tier == "quick" else "every 11th permutation"),
         assumptions=["crash = exception thrown out of the handler at an operation boundary of the mirror (no page-cache loss)",
                      "source and destination are on one file system (shutil.move is a rename)"],
     )
